@@ -474,7 +474,9 @@ def h_finfo(ctx, rng, fe, thorough):
         ix2[-1].padding, ix2[-2].padding = a, b
         bad = R.build_file(ix2, rng)
         for ch in (len(bad) + 1, rng.choice([1, 3, 17, 4096])):
-            h.do("finfo 5 %d %d 0 %s" % (1 << 40, ch, R.hexs(bad)))
+            line = "finfo 5 %d %d 0 %s" % (1 << 40, ch, R.hexs(bad))
+            fe[line] = "invalid"
+            h.do(line)
     # malformed variants of the same file: the Lean model predicts them, the reference only checks the sanity conditions
     for _ in range(rng.randrange(1, 5)):
         bad = bytearray(data)
@@ -594,8 +596,8 @@ def judge_unpredicted(op, out):
     return None
 
 
-def run_hist(exe, ops):
-    rc, out, err = vlib.run_lines([exe], ops, timeout=600)
+def run_hist(exe, ops, timeout=60):
+    rc, out, err = vlib.run_lines([exe], ops, timeout=timeout)
     return rc, [R.strip_note(x) for x in out], err
 
 
@@ -606,6 +608,9 @@ def first_bad(ops, exp, out):
             return i
         if exp[i] is None:
             if judge_unpredicted(op, out[i]) is not None:
+                return i
+        elif exp[i] == "!notok":
+            if out[i].startswith("1 ") or judge_unpredicted(op, out[i]) is not None:
                 return i
         elif exp[i] != out[i]:
             return i
@@ -618,21 +623,22 @@ def reference_lines(ops, fe):
     return [ref.op(l) for l in ops]
 
 
-def failing(exe, ops, fe):
-    """Does the implementation contradict the reference (or abort) on this history? Returns (bool, detail dict)."""
+def failing(exe, ops, fe, timeout=60):
+    """Does the implementation contradict the reference (or abort/hang) on this history? Returns (bool, detail dict)."""
     exp = reference_lines(ops, fe)
-    rc, out, err = run_hist(exe, ops)
+    rc, out, err = run_hist(exe, ops, timeout)
     if rc != 0 or len(out) != len(ops):
-        return True, {"kind": "implementation aborted (sanitizer/assert/crash)", "stderr": err[-1500:], "answered": len(out)}
+        return True, {"kind": "implementation hangs (no answer within %d s)" % timeout if rc == 124 else
+                      "implementation aborted (sanitizer/assert/crash)", "stderr": err[-1500:], "answered": len(out)}
     i = first_bad(ops, exp, out)
     if i is None:
         return False, {}
-    why = judge_unpredicted(ops[i], out[i]) if exp[i] is None else None
+    why = judge_unpredicted(ops[i], out[i]) if exp[i] is None else ("an invalid file (Stream Padding not a multiple of 4) was accepted" if exp[i] == "!notok" else None)
     return True, {"kind": why or "implementation differs from the list-of-records reference", "first_bad_op": i, "op": ops[i][:300],
                   "impl": out[i][:600], "reference": (exp[i] or "")[:600]}
 
 
-def shrink(exe, ops, fe, budget=250):
+def shrink(exe, ops, fe, budget=250, timeout=60):
     """Delta debugging on the op list (keeps 'reset' first)."""
     cur = list(ops)
     n = 2
@@ -644,7 +650,7 @@ def shrink(exe, ops, fe, budget=250):
             budget -= 1
             if budget <= 0:
                 break
-            if len(cand) >= 1 and failing(exe, cand, fe)[0]:
+            if len(cand) >= 1 and failing(exe, cand, fe, timeout)[0]:
                 cur = cand
                 n = max(2, n - 1)
                 reduced = True
@@ -656,10 +662,42 @@ def shrink(exe, ops, fe, budget=250):
     return cur
 
 
+def fe_dump(ops, fe):
+    """The file-info expectations of the finfo ops of a history, in JSON-able form (for the replay file)."""
+    out = []
+    for j, l in enumerate(ops):
+        e = fe.get(l)
+        if e == "invalid":
+            out.append([j, "invalid"])
+        elif e is not None:
+            out.append([j, [[list(s.flags) if s.flags else None, s.padding, [list(b) for b in s.blocks]] for s in e]])
+    return out
+
+
+def fe_load(ops, dumped):
+    fe = {}
+    for j, e in dumped or []:
+        if e == "invalid":
+            fe[ops[j]] = "invalid"
+        else:
+            ix = []
+            for flags, padding, blocks in e:
+                s = R.Stream()
+                s.flags = tuple(flags) if flags else None
+                s.padding = padding
+                for u, c in blocks:
+                    s.add(u, c)
+                ix.append(s)
+            fe[ops[j]] = ix
+    return fe
+
+
 def classify(detail, ops):
     op = detail.get("op", "")
     if detail.get("kind", "").startswith("implementation aborted"):
         return "abort"
+    if detail.get("kind", "").startswith("implementation hangs"):
+        return "hang"
     return "mismatch-" + (op.split()[0] if op else "unknown")
 
 
@@ -717,10 +755,12 @@ def run(ctx):
         bins[j % nb].append(i)
     bins = [b for b in bins if b]
 
+    bin_timeout = 400 if ctx.quick() else 2400
+
     def run_bin(args):
         prog, b = args
         lines = [l for i in b for l in hists[i].ops]
-        rc, out, err = vlib.run_lines([prog], lines, timeout=3000)
+        rc, out, err = vlib.run_lines([prog], lines, timeout=bin_timeout)
         return rc, [R.strip_note(x) for x in out], err
 
     res_c = vlib.par_map(run_bin, [(exe, b) for b in bins])
@@ -731,10 +771,19 @@ def run(ctx):
     for (rc, out, err), b in zip(res_c, bins):
         total = sum(len(hists[i].ops) for i in b)
         if rc != 0 or len(out) != total:
-            # abort somewhere in this bin: rerun history by history
+            # abort or hang somewhere in this bin: rerun history by history (short timeout; stop after two failures,
+            # the remaining histories of the bin are not judged in this run)
+            nfail = 0
             for i in b:
-                rc1, o1, e1 = run_hist(exe, hists[i].ops)
-                c_out[i] = o1 if rc1 == 0 and len(o1) == len(hists[i].ops) else ("ABORT", o1, e1)
+                if nfail >= 2:
+                    c_out[i] = None
+                    continue
+                rc1, o1, e1 = run_hist(exe, hists[i].ops, timeout=20 if ctx.quick() else 120)
+                if rc1 == 0 and len(o1) == len(hists[i].ops):
+                    c_out[i] = o1
+                else:
+                    c_out[i] = ("HANG" if rc1 == 124 else "ABORT", o1, e1)
+                    nfail += 1
         else:
             p = 0
             for i in b:
@@ -763,23 +812,28 @@ def run(ctx):
             ctx.case((i, j, op[:200]), nontrivial=not op.startswith(("reset", "end")), sample=None)
         nops += len(h.ops)
         bad, detail = None, None
+        if co is None:
+            ctx.count("histories-not-judged-after-abort-in-same-bin")
+            continue
         if isinstance(co, tuple):
-            bad, detail = True, {"kind": "implementation aborted (sanitizer/assert/crash)", "stderr": co[2][-1500:], "answered": len(co[1])}
+            bad, detail = True, {"kind": "implementation hangs" if co[0] == "HANG" else "implementation aborted (sanitizer/assert/crash)",
+                                 "stderr": co[2][-1500:], "answered": len(co[1])}
         else:
             k = first_bad(h.ops, h.exp, co)
-            nref += sum(1 for e in h.exp if e is not None)
+            nref += sum(1 for e in h.exp if e is not None and e != "!notok")
             if k is not None:
-                why = judge_unpredicted(h.ops[k], co[k]) if h.exp[k] is None else None
+                why = judge_unpredicted(h.ops[k], co[k]) if h.exp[k] is None else ("an invalid file (Stream Padding not a multiple of 4) was accepted" if h.exp[k] == "!notok" else None)
                 bad, detail = True, {"kind": why or "implementation differs from the list-of-records reference", "first_bad_op": k,
                                      "op": h.ops[k][:300], "impl": co[k][:600], "reference": (h.exp[k] or "")[:600]}
         if bad:
             tag = h.kind + "-" + classify(detail, h.ops)
             if tag not in seen_tags and nviol < 6:
                 seen_tags.add(tag)
-                small = shrink(exe, h.ops, fe)
-                _, d2 = failing(exe, small, fe)
+                slow = isinstance(co, tuple) and co[0] == "HANG"
+                small = shrink(exe, h.ops, fe, budget=40 if slow else 250, timeout=10 if slow else 60)
+                _, d2 = failing(exe, small, fe, 10 if slow else 60)
                 ctx.violation(tag, {"kind": (d2 or detail).get("kind"), "ops": small, "detail": d2 or detail, "history_kind": h.kind,
-                                    "finfo_expect": None,
+                                    "finfo_expect": fe_dump(small, fe),
                                     "how_to_replay": "./check C13 --replay <this file>   (or: printf '%s\\n' <ops> | .cache/harness-asan/c13)"}, True)
             nviol += 1
             continue
@@ -796,7 +850,7 @@ def run(ctx):
                     break
     if ctx.cov["samples"] == []:
         for i in (0, len(hists) // 2, len(hists) - 1):
-            if not isinstance(c_out[i], tuple):
+            if isinstance(c_out[i], list):
                 ctx.cov["samples"].append({"history_kind": hists[i].kind, "ops": [o[:120] for o in hists[i].ops[:6]], "impl": [o[:160] for o in c_out[i][:6]]})
     ctx.cov["correspondence"] = {"histories": len(hists), "ops": nops, "ops_predicted_by_python_reference": nref,
                                  "histories_contradicting_reference": nviol, "model_ran": m_out is not None, "model_mismatching_histories": nmodel,
@@ -817,9 +871,10 @@ def replay(ctx, path):
         return 2
     R.load_constants(vlib.module_path("XzVerif.Gen.C13"))
     ops = r["ops"]
-    bad, detail = failing(exe, ops, {})
+    fe = fe_load(ops, r.get("finfo_expect"))
+    bad, detail = failing(exe, ops, fe)
     rc, out, err = run_hist(exe, ops)
-    exp = reference_lines(ops, {})
+    exp = reference_lines(ops, fe)
     for i, op in enumerate(ops):
         o = out[i] if i < len(out) else "<no answer>"
         mark = "  " if (exp[i] is None or exp[i] == o) else "!!"
